@@ -12,7 +12,8 @@ package main
 //    sites in ListEvents),
 // D5 invalid-range errors propagate (A3),
 // D6 the RPC handlers list previous events exactly when since_now is unset,
-// D7 replayed events are not lost between the forwarding goroutine and the send loop.
+// D7 replayed events are not lost between the forwarding goroutine and the send loop,
+// D8 no nil event is emitted on a listing channel (sends sit on the nil-error side of the open call).
 
 import (
 	"fmt"
@@ -42,11 +43,15 @@ func init() {
 			"(D4) for each store, the range selector and the iterator are evaluated exhaustively on abstract logs of 0..12 distinct entries (oldest first) for every (since, until) in {unset, each entry, unknown identifier} and both values of reverse, with the arguments composed as ListEvents passes them: the selected entries are exactly the inclusive range, an unknown identifier or since-after-until gives an error carrying ErrInvalidRange, and the iterator visits every selected entry once in forward order, or exactly reversed when reverse is set. " +
 			"(D5) ListEvents returns the selector's error; the handlers return ListEvents' error. (D6) the handlers call ListEvents exactly when since_now is unset and on no other request field. " +
 			"(D7) in each handler, a channel that hands replayed events from a forwarding goroutine to the loop that calls the stream's Send is a rendez-vous channel (constant capacity 0) whenever the forwarder signals completion out of band, i.e. calls the cancel function of a context whose Done() the send loop selects on next to that channel and answers by returning: with a buffer the cancel can overtake queued events and the stream ends without its last events; completion signalled in band (sentinel, close) carries no such requirement. " +
-			"Not decided: that Values() itself is a correct, replica-independent linearisation (go-ipfs-log, trusted at its documented API); that entries which fail to open are skipped without disturbing the order of the others; the interleaving of replayed and live events in the RPC stream (D7 only excludes the loss of queued replayed events at an out-of-band end of stream); behaviour for logs above 12 entries beyond what the size-independent evaluation suggests; concurrent appends during a listing.",
+			"(D8) every send on the channel a ListEvents returns hands over an event that exists: the value sent is either freshly built, or tested non-nil, or the result of the call that opened the entry and the send is reachable only through the nil-error side of that call's error (a compound condition whose other side still contains an error case is reported): the list RPCs read a nil event as the end of the listing, so one nil event silently drops the rest of the range. " +
+			"Not decided: that Values() itself is a correct, replica-independent linearisation (go-ipfs-log, trusted at its documented API); that entries which fail to open are skipped without disturbing the order of the others (D8 only excludes that they are emitted as nil events); the interleaving of replayed and live events in the RPC stream (D7 only excludes the loss of queued replayed events at an out-of-band end of stream); behaviour for logs above 12 entries beyond what the size-independent evaluation suggests; concurrent appends during a listing.",
 		Trusted:     []string{"golang.org/x/tools go/packages+go/ssa (v0.29.0)", "go-ipfs-log: Log.Values() is the clock-sorted traversal oldest first, GetEntries() the insertion-ordered map, OrderedMap.Reverse/Slice/Copy as documented", "bytes.Equal, cid.Cid.Bytes injective on distinct entries", "the rule file's finite-domain SSA evaluator (c13.go)"},
 		Assumptions: []string{"dependencies behave as documented; only module code is analysed", "distinct log entries have distinct hashes", "request byte fields are nil when unset (protobuf decoding)"},
-		Floors:      map[string]int{"D1": 2, "D2": 10, "D3": 66, "D4": 12, "D5": 4, "D6": 2, "D7": 2},
-		Run:         runC13,
+		Floors:      map[string]int{"D1": 2, "D2": 10, "D3": 66, "D4": 12, "D5": 4, "D6": 2, "D7": 2, "D8": 2},
+		Borrows: []Borrow{
+			{From: "C04", Rules: []string{"D9"}, Why: "listings follow log order, and are the same on every replica, only if the log order itself is the same on every replica: group stores must be opened with a comparator whose tie-break is total (every device writes under the group's one log identity, so concurrent entries tie on clock time and id and the default orders them by arrival)"},
+		},
+		Run: runC13,
 	})
 }
 
@@ -1137,6 +1142,7 @@ func runC13(c *Ctx) {
 		c13D2Store(c, st)
 		c13D4(c, st, invalidRange, haveCode)
 		c13D5Store(c, st)
+		c13D8(c, st)
 	}
 	handlers := c13FindHandlers(c, stores)
 	for _, h := range handlers {
@@ -2269,5 +2275,130 @@ func c13D7(c *Ctx, h *c13Handler) {
 		c.undecided("D7", construct, hos[0].ch.Pos(), "%s", strings.Join(undec, "; "))
 	default:
 		c.ok("D7", construct, hos[0].ch.Pos(), "%s", strings.Join(okmsg, "; "))
+	}
+}
+
+// ---- D8: only opened events are emitted -------------------------------------------------
+
+func (st *c13Store) chanOf(v ssa.Value) *ssa.MakeChan {
+	if o := st.Scope.resolve(v); o.Kind == "make" && !o.Neg && o.Path == "" {
+		return o.Make
+	}
+	return nil
+}
+
+// c13Dominated: every path to blk takes one of the edges.
+func c13Dominated(edges []edge, blk *ssa.BasicBlock) bool {
+	for _, e := range edges {
+		if edgeDominates(e, blk) {
+			return true
+		}
+	}
+	return false
+}
+
+func c13D8(c *Ctx, st *c13Store) {
+	construct := st.Name + "+emit"
+	// the output channel: what ListEvents returns
+	outs := map[*ssa.MakeChan]bool{}
+	for _, r := range returnsOf(st.LE) {
+		for i, v := range retResults(r) {
+			if _, isChan := st.LE.Signature.Results().At(i).Type().Underlying().(*types.Chan); isChan && !isNilConst(v) {
+				if ch := st.chanOf(v); ch != nil {
+					outs[ch] = true
+				} else {
+					c.undecided("D8", construct, posOf(r), "the channel returned by ListEvents is %s, not a channel made in ListEvents: its senders cannot be enumerated", st.Scope.resolve(v).String())
+					return
+				}
+			}
+		}
+	}
+	if len(outs) == 0 {
+		c.undecided("D8", construct, st.LE.Pos(), "ListEvents returns no channel")
+		return
+	}
+	type sendSite struct {
+		in  ssa.Instruction
+		val ssa.Value
+	}
+	var sites []sendSite
+	for _, fn := range st.Scope.funcs {
+		for _, b := range fn.Blocks {
+			for _, in := range b.Instrs {
+				switch x := in.(type) {
+				case *ssa.Send:
+					if ch := st.chanOf(x.Chan); ch != nil && outs[ch] {
+						sites = append(sites, sendSite{x, x.X})
+					}
+				case *ssa.Select:
+					for _, s := range x.States {
+						if s.Dir == types.SendOnly {
+							if ch := st.chanOf(s.Chan); ch != nil && outs[ch] {
+								sites = append(sites, sendSite{x, s.Send})
+							}
+						}
+					}
+				}
+			}
+		}
+	}
+	if len(sites) == 0 {
+		c.undecided("D8", construct, st.LE.Pos(), "no send on the channel returned by ListEvents was found in ListEvents, its closures and helpers")
+		return
+	}
+	var bad, undec []string
+	okCount := 0
+	for _, s := range sites {
+		blk := s.in.Block()
+		where := c.pos(posOf(s.in))
+		// tested non-nil?
+		if c13Dominated(edgesOfVerdict(s.val).Reject, blk) {
+			okCount++
+			continue
+		}
+		if al, ok := s.val.(*ssa.Alloc); ok && al.Heap {
+			okCount++ // &T{...}: never nil
+			continue
+		}
+		o := st.Scope.resolve(s.val)
+		switch {
+		case o.Kind == "const" && isNilConst(o.Const):
+			bad = append(bad, fmt.Sprintf("a nil event is sent at %s", where))
+		case o.Kind != "result":
+			undec = append(undec, fmt.Sprintf("the event sent at %s is %s: whether it can be nil is not decided", where, o.String()))
+		default:
+			call := o.Call
+			callee := calleeKey(call.Common())
+			if f := staticCallee(call.Common()); f != nil {
+				callee = fnName(f)
+			}
+			if errResultIndex(call.Common().Signature()) < 0 {
+				undec = append(undec, fmt.Sprintf("the event sent at %s is the result of %s, which reports no error, and is not tested for nil", where, callee))
+				break
+			}
+			v := errVerdict(call)
+			if v == nil {
+				bad = append(bad, fmt.Sprintf("the event sent at %s is the result of %s whose error is discarded: an entry that cannot be opened is emitted as a nil event", where, callee))
+				break
+			}
+			if call.Parent() != blk.Parent() {
+				undec = append(undec, fmt.Sprintf("the event sent at %s is opened in another function (%s): dominance by its error test is not followed", where, fnName(call.Parent())))
+				break
+			}
+			if c13Dominated(edgesOfVerdict(v).Accept, blk) {
+				okCount++
+				break
+			}
+			bad = append(bad, fmt.Sprintf("the send at %s is reachable with a non-nil error from %s (the event is then nil): the list RPCs read a nil event as the end of the listing and drop every later event of the range", where, callee))
+		}
+	}
+	pos := posOf(sites[0].in)
+	switch {
+	case len(bad) > 0:
+		c.fail("D8", construct, pos, "%s", strings.Join(bad, "; "))
+	case len(undec) > 0:
+		c.undecided("D8", construct, pos, "%s", strings.Join(undec, "; "))
+	default:
+		c.ok("D8", construct, pos, "%d send(s) on the listing channel, each on the nil-error side of the call that opened the entry (or of a non-nil test, or of a freshly built event)", okCount)
 	}
 }
